@@ -131,6 +131,7 @@ Theorem lzma_symbol_coding_lossless_known_size :
   exists zs,
     lz_start (encode ds ++ rest) ps0 st0 r0 r1 r2 r3 h0 (Some n) = inl zs /\
     let zr := lz_run pr dict_size allow_eopm fuel zs in
+    same (with_status (snd er) Finished) zr /\
     zstatus zr = Finished /\ zout zr = zout (snd er) /\ zhist zr = zhist (snd er) /\
     rin (zrc zr) = rest /\ rused (zrc zr) = N.of_nat (length (encode ds)).
 Proof. exact lzma_roundtrip_known_size. Qed.
